@@ -147,7 +147,7 @@ impl Check for Analyses {
         "analyses"
     }
     fn cases(&self, tier: Tier) -> usize {
-        tier.pick(60_000, 2_000_000)
+        tier.pick(600_000, 10_000_000)
     }
     fn strategy(&self, _tier: Tier) -> BoxedStrategy<Case> {
         let c = graph_cfg();
@@ -253,7 +253,7 @@ impl Check for Enforcement {
         "enforcement"
     }
     fn cases(&self, tier: Tier) -> usize {
-        tier.pick(4_000, 100_000)
+        tier.pick(40_000, 800_000)
     }
     fn strategy(&self, _tier: Tier) -> BoxedStrategy<EnfCase> {
         (gt::choices(160), 0u8..9, any::<bool>(), any::<bool>())
